@@ -58,6 +58,12 @@ type halfEdgeRecord struct {
 	// in the input geometries.
 	srcFace [2]bool
 
+	// srcFaceCount is the number of areal members of each operand that
+	// explicitly border onto this edge with their interior on this edge's
+	// side. It can exceed 1 when the members of a GeometryCollection operand
+	// overlap or repeat.
+	srcFaceCount [2]int
+
 	// inSet encodes whether or not this edge is (explicitly or implicitly)
 	// part of the input geometry for each operand.
 	inSet [2]bool
